@@ -758,6 +758,12 @@ class Table(Vector):
 			row_spec = key
 			col_spec = slice(None)
 
+		# A row key that is a vector (boolean mask or positions) may be a live column of this very
+		# table. It has to select the same rows for every column, so take a snapshot before the
+		# first column is written.
+		if isinstance(row_spec, Vector):
+			row_spec = row_spec.copy()
+
 		# --- 2. Resolve Target Columns ---
 		# This replicates the lookup logic from __getitem__
 		self._fresh_column_map()
